@@ -104,6 +104,16 @@ def parseMini (l : List Nat) : Except String Obj :=
   | some (o, rest) => if (skipWs rest).isEmpty then .ok o else .error "JSONDecodeError"
   | none => .error "JSONDecodeError"
 
+/-- UTF-8 of one code point (text handed to `json.loads` as `str` has no lone surrogates) -/
+def encodeCp (c : Nat) : List Nat :=
+  if c < 128 then [c]
+  else if c < 2048 then [192 + c / 64, 128 + c % 64]
+  else if c < 65536 then [224 + c / 4096, 128 + c / 64 % 64, 128 + c % 64]
+  else [240 + c / 262144, 128 + c / 4096 % 64, 128 + c / 64 % 64, 128 + c % 64]
+
+/-- `json.loads` of a `str` line (text-mode files): the recogniser on the UTF-8 of the text -/
+def parseMiniT (t : List Nat) : Except String Obj := parseMini (t.flatMap encodeCp)
+
 def showObj : Obj → String
   | .int neg ds => "i" ++ (if neg then "-" else "") ++ String.ofList (ds.map Char.ofNat)
   | .str bs => "s" ++ showHex bs
@@ -157,37 +167,48 @@ def handle (line : String) : String :=
     | some c =>
       if (mode ≠ "b" ∧ mode ≠ "t") ∨ (ign ≠ "0" ∧ ign ≠ "1") then "bad-op" else
       let ignore := ign == "1"
-      let fwd := if mode == "b" then jsonlForwardB parseMini ignore c else jsonlForwardT parseMini ignore c
       -- 4096 is the block size JSONLIterator uses; by `C19.jsonl_blocksize_independent` any other
       -- block size gives the same result
-      let rev := jsonlReverse parseMini ignore 4096 c
-      let fls := if mode == "b" then fileLinesB c else fileLinesT false c
-      -- strict mode: also the results of going on calling next() after each error
-      "F" ++ showRun fwd ++ " R" ++ showRun rev ++
-        (if mode == "b" then " P" ++ showNats (jsonlForwardPosB parseMini ignore c) "." else "") ++
-        (if ignore then "" else " A" ++ showOutcomes (outcomes parseMini false fls) ++
-          " B" ++ showOutcomes (outcomes parseMini false (reverseIterLines c 4096)))
+      if mode == "b" then
+        let fwd := jsonlForwardB pyWs parseMini ignore c
+        let rev := jsonlReverse pyWs parseMini ignore 4096 c
+        -- strict mode: also the results of going on calling next() after each error
+        "F" ++ showRun fwd ++ " R" ++ showRun rev ++
+          " P" ++ showNats (jsonlForwardPosB pyWs parseMini ignore c) "." ++
+          (if ignore then "" else " A" ++ showOutcomes (outcomes pyWs parseMini false (fileLinesB c)) ++
+            " B" ++ showOutcomes (outcomes pyWs parseMini false (reverseIterLines c 4096)))
+      else
+        -- text mode: the lines are `str`; forward = universal newlines over the decoded text,
+        -- reverse = the byte lines found backwards, each decoded
+        match decodeG false c with
+        | none => "undecodable"
+        | some t =>
+          let fwd := jsonlForwardT pyWsT parseMiniT ignore t
+          let rev := jsonlReverseText pyWsT parseMiniT ignore 4096 c
+          "F" ++ showRun fwd ++ " R" ++ showRun rev ++
+            (if ignore then "" else " A" ++ showOutcomes (outcomes pyWsT parseMiniT false (fileLinesT false t)) ++
+              " B" ++ showOutcomes (outcomes pyWsT parseMiniT false ((reverseIterLinesText c 4096).filterMap id)))
     | none => "bad-op"
   | ["js", ign, "zero", c] =>
     match hex? c with
     | some c =>
       if ign ≠ "0" ∧ ign ≠ "1" then "bad-op" else
       let ignore := ign == "1"
-      "F" ++ showRun (jsonlRelSeekZero parseMini ignore false 4096 c) ++ " R" ++
-        showRun (jsonlRelSeekZero parseMini ignore true 4096 c)
+      "F" ++ showRun (jsonlRelSeekZero pyWsT parseMiniT ignore false 4096 c) ++ " R" ++
+        showRun (jsonlRelSeekZero pyWsT parseMiniT ignore true 4096 c)
     | none => "bad-op"
   | ["js", ign, target, c] =>
     match hex? c, target.toNat? with
     | some c, some target =>
       if ign ≠ "0" ∧ ign ≠ "1" then "bad-op" else
       let ignore := ign == "1"
-      match jsonlRelSeek parseMini ignore false 4096 c target, jsonlRelSeek parseMini ignore true 4096 c target with
+      match jsonlRelSeek pyWsT parseMiniT ignore false 4096 c target, jsonlRelSeek pyWsT parseMiniT ignore true 4096 c target with
       | some fwd, some rev => "F" ++ showRun fwd ++ " R" ++ showRun rev
       | _, _ => "hang"
     | _, _ => "bad-op"
   | ["tbl"] =>
     "E" ++ showLines showCps Generated.lineEndings ++ " L" ++ showCps Generated.lstripSet
-      ++ " R" ++ showCps Generated.rstripSet ++ " S" ++ showCps Generated.strBreakSet
+      ++ " R" ++ showCps Generated.rstripSet ++ " T" ++ showCps Generated.lstripSetT ++ " S" ++ showCps Generated.strBreakSet
       ++ " B" ++ showCps Generated.bytesBreakSet
   | _ => "bad-op"
 
